@@ -82,6 +82,10 @@ claim("C18", "The finite configuration matrix is decided by path predicates: eve
       "doHandshake succeeds only after HandshakeContext and (unless InsecureSkipVerify) VerifyHostname(cfg.ServerName); the CONNECT exchange (target/Host, Basic credentials iff password, 200 required) and default ports/scheme mapping are checked on every path. crypto/tls and x/net/proxy are trusted.",
       NOTE, "path-predicate enumeration of the dial configuration matrix with value provenance (go/ssa)", "DESIGN.md §4 C18")
 
+claim("C19", "Sibling/key agreement: WritePreparedMessage's compress flag is true exactly under NextWriter's three conditions (evaluated per path), role/level are the live fields; effect analysis shows every Conn field read on WriteMessage's call-graph cone is key-determined or in a reviewed neutral list; the private Conn is configured from every key field and rendered by WriteMessage(pm.messageType, pm.data); "
+      "NewPreparedMessage re-points data at its own rendered copy; the frame cache is accessed under the mutex and read only after once.Do; the cached frame goes through Conn.write (C09 protocol incl. close-sent recording). Decoded equality is NOT decided.",
+      NOTE, "sibling-guard agreement by path enumeration + transitive field-effect (mod-set) analysis + lockset (go/ssa)", "DESIGN.md §4 C19")
+
 REASON_NOT_BUILT = "rules for this property are not built yet in this revision (see DESIGN.md §4 for the planned static rules); nothing is claimed"
 
 def main():
